@@ -736,6 +736,12 @@ func (g *gen) annotate(m *Message, fq string, c *fieldCtx) {
 	}
 	if (can("oneof_disc") || can("oneof_flat")) && len(m.Oneofs) == 0 && want("oneof") && !(p.ContractStrict && g.avoid("oneof_disc_openapi_schema")) {
 		flat := can("oneof_flat") && (!can("oneof_disc") || g.bool("oneofflat"))
+		if !flat && p.ContractStrict && g.avoid("ts_oneof_disc_nested_under_oneof_name") {
+			if !can("oneof_flat") {
+				return
+			}
+			flat = true
+		}
 		o := g.addOneof(m, fq, c, true, flat)
 		o.Discriminator = pick(g, []string{"type", "kind", "tag_name", "@type"}, "disc")
 		if o.Discriminator == "@type" && g.avoid("ts_discriminator_nonidentifier") {
